@@ -223,7 +223,7 @@ META = {
                   "first window end is the first grid point >= creation + period (so within [creation+period, creation+2*period)), "
                   "aligned to align_to (or to the creation instant), and equals the instant the timer is armed for; for EVERY "
                   "sequence of ticks / additions / removals / failing sinks the k-th tick hands every registered series "
-                  "w0 + k*period, independent of lateness labels, also on the ResamplingError path. The function "
+                  "w0 + k*period, independent of lateness labels, also on the ResamplingError path and on the IndexError path (add_timeseries while a tick's sinks are awaited kills resample(); the model pairs results with the changed key list exactly as the code does, and the window end has already advanced). The function "
                   "_calculate_window_end is regenerated from /repo on every run; the loop bookkeeping is tied by replaying "
                   "recorded boundary traces of the real Resampler through the model inside Coq.",
     "level_note": "Time in the model is the UTC instant in microseconds; tz-aware wall-clock arithmetic (DST) is Python semantics "
